@@ -258,6 +258,26 @@ def rule_bm(repo: Repo, rep: Report) -> int:
     for t in need:
         rep.expect(t in body, "BM", alg, f"LFSR synthesis step `{t}`", "Berlekamp-Massey update", "a step of the LFSR synthesis changed")
         n += 1
+    # the auxiliary iteration k: Massey's rule picks, among the earlier iterations with non-zero discrepancy, the one
+    # maximising i - degree[i]; a choice that does not look at the LFSR lengths yields a non-minimal locator
+    kdefs = [s for s in ast.walk(alg.node) if isinstance(s, ast.Assign) and any(isinstance(x, ast.Name) and x.id == "k" and isinstance(x.ctx, ast.Store) for t in s.targets for x in ast.walk(t))]
+    ksel = [s for s in ast.walk(alg.node) if isinstance(s, ast.If) and any(d in list(ast.walk(s)) for d in kdefs)]
+    crit_ok = any(unparse(s.test) in ("discrepancy[i] != field.zero and i - degree[i] > max_so_far", "discrepancy[i] != self.field.zero and i - degree[i] > max_so_far") for s in ksel) and any(unparse(d) == "k, max_so_far = (i, i - degree[i])" for d in kdefs) and any(isinstance(l, ast.For) and unparse(l.iter) == "range(-1, j)" for l in ast.walk(alg.node))
+    uses_degree = any(any(isinstance(x, ast.Name) and x.id == "degree" for x in ast.walk(d.value)) for d in kdefs) or any(any(isinstance(x, ast.Name) and x.id == "degree" for x in ast.walk(s.test)) for s in ksel)
+    reads_disc = any(any(isinstance(x, ast.Name) and x.id == "discrepancy" for x in ast.walk(d)) for d in kdefs) or bool(ksel)
+    rep.shape(crit_ok, bool(kdefs) and reads_disc and not uses_degree, "BM", alg, f"auxiliary iteration k: {'; '.join(unparse(d)[:70] for d in kdefs)}", "k maximises i - degree[i] over earlier iterations with non-zero discrepancy (Massey)", "the auxiliary iteration is chosen without comparing i - degree[i]: when an earlier discrepancy was zero the synthesised register is not the shortest one and the locator has spurious roots (wrong bits are flipped for some patterns of weight <= t)")
+    n += 1
+    from ..fecrules import closed_definitions
+
+    n += closed_definitions(rep, "BM", alg, {
+        "sigma": ["sigma = {-1: [field.one], 0: [field.one]}", "sigma[j + 1] = sigma[j]", "sigma[j + 1] = [fst[i] + snd[i] * coefficient for i in range(degree[j + 1] + 1)]"],
+        "degree": ["degree = {-1: 0, 0: 0}", "degree[j + 1] = degree[j]", "degree[j + 1] = max(degree[j], degree[k] + j - k)"],
+        "discrepancy": ["discrepancy = {-1: field.one, 0: syndrome[0]}", "discrepancy[j + 1] = syndrome[j + 1]", "discrepancy[j + 1] += sigma[j + 1][i + 1] * syndrome[j - i]"],
+        "fst": ["fst = [field.zero] * (degree[j + 1] + 1)", "fst[:degree[j] + 1] = sigma[j]"],
+        "snd": ["snd = [field.zero] * (degree[j + 1] + 1)", "snd[j - k:degree[k] + j - k + 1] = sigma[k]"],
+        "coefficient": ["coefficient = discrepancy[j] * inv_discrepancy_k"],
+        "inv_discrepancy_k": ["inv_discrepancy_k = discrepancy[k].inverse()"],
+    }, "the LFSR synthesis")
     loops = [s for s in alg.body if isinstance(s, ast.For)]
     rep.expect(bool(loops) and unparse(loops[0].iter) == "range(self.t * 2 - 1)" and any(unparse(r.value) == "sigma[self.t * 2 - 1]" for r in returns_of(alg.node)), "BM", alg, "2t - 1 iterations, result sigma[2t - 1]", "all 2t syndromes consumed", "iteration count changed")
     return n + 1
@@ -274,7 +294,24 @@ def rule_hamming(repo: Repo, rep: Report) -> int:
     body = [unparse(s) for s in stmts_of(inv.body)]
     ok = "y_reshaped[i, p] = 1 - y_reshaped[i, p]" in body and "valid_errors = error_positions < self.code_length" in body and any(b.startswith("error_positions = torch.tensor([self._syndrome_to_error_position(s) for s in syndrome_reshaped]") for b in body) and "syndrome = self.calculate_syndrome(y)" in body
     rep.expect(ok, "HAMMING", inv, "flip exactly the located bit of each row with a matching column; syndrome from the encoder's calculate_syndrome", "single-error correction by the published H", "Hamming correction changed")
-    return 2
+    # every row whose syndrome equals a column of H is corrected: the mask of corrected rows is never narrowed
+    vdefs = [s for s in ast.walk(inv.node) if isinstance(s, (ast.Assign, ast.AugAssign)) and any(isinstance(x, ast.Name) and x.id == "valid_errors" and isinstance(x.ctx, ast.Store) for t in (s.targets if isinstance(s, ast.Assign) else [s.target]) for x in ast.walk(t))]
+    narrowed = [s for s in vdefs if unparse(s) != "valid_errors = error_positions < self.code_length" and ((isinstance(s, ast.Assign) and isinstance(s.value, ast.BinOp) and isinstance(s.value.op, ast.BitAnd)) or (isinstance(s, ast.AugAssign) and isinstance(s.op, ast.BitAnd)) or (isinstance(s, ast.Assign) and "logical_and" in unparse(s.value)))]
+    for s in narrowed:
+        rep.violation("HAMMING", inv, s, "rows whose syndrome equals a column of the check matrix are excluded from correction by an additional condition: a single error at such a position is left uncorrected (the matching column IS the single-error explanation, for the extended code as well)", node=s)
+    from ..fecrules import closed_definitions
+
+    closed_definitions(rep, "HAMMING", inv, {
+        "valid_errors": ["valid_errors = error_positions < self.code_length"] + [unparse(s) for s in narrowed],
+        "error_positions": ["error_positions = torch.tensor([self._syndrome_to_error_position(s) for s in syndrome_reshaped], device=y.device)"],
+        "y_reshaped": ["y_reshaped = y.reshape(-1, self.code_length).clone()", "y_reshaped[i, p] = 1 - y_reshaped[i, p]"],
+        "pos": ["pos = error_positions[valid_errors]"],
+        "batch_indices": ["batch_indices = torch.nonzero(valid_errors, as_tuple=True)[0]"],
+        "syndrome": ["syndrome = self.calculate_syndrome(y)"],
+        "syndrome_reshaped": ["syndrome_reshaped = syndrome.reshape(-1, self.redundancy)"],
+        "decoded": ["decoded = y_reshaped[..., self.information_set]", "decoded = decoded.reshape(*original_dims, -1)"],
+    }, "the Hamming single-error correction")
+    return 4
 
 
 def run(repo: Repo, rep: Report, tier: str) -> None:
